@@ -8,6 +8,9 @@ pub mod basic;
 #[path = "../../corpus/wide.rs"]
 pub mod wide;
 
+#[path = "../../corpus/qret.rs"]
+pub mod qret;
+
 #[cfg(kani)]
 mod h {
     use crate::basic::ct::sv::{
@@ -358,4 +361,65 @@ mod hw {
     }
 
     // @PLAYBACK hw@
+}
+
+#[cfg(kani)]
+mod hq {
+    use crate::qret::ifq::sv::IfqQueryMsg;
+    use crate::qret::qr::sv::{ContractQueryMsg, QueryMsg};
+    use crate::qret::qr::Qr;
+    use support::call::{any_in, check_call};
+    use support::stubs::{bt_disabled, fmt_stub};
+
+    /// Queries returning `Binary` / `bool`: the caller gets the JSON ENCODING of the returned value --
+    /// for a Binary the JSON *string* of its base64 form (the base64 text is a stub: one letter derived
+    /// from the byte), for a bool `true` / `false` -- from the contract's own message, through the
+    /// contract-level wrapper and from the interface part.
+    macro_rules! qre {
+        ($name:ident, $sel:literal) => {
+            #[kani::proof]
+            #[kani::unwind(10)]
+            #[kani::stub(std::backtrace::Backtrace::capture, bt_disabled)]
+            #[kani::stub(alloc::fmt::format, fmt_stub)]
+            #[kani::stub(sylvia::cw_std::Binary::to_base64, support::stubs::b64_stub)]
+            fn $name() {
+                let i = any_in();
+                let b: u8 = kani::any();
+                let w = i.world();
+                let (r, id) = match $sel {
+                    0 => (QueryMsg::RawBin { b }.dispatch(&Qr::new(), (w.deps(), i.env())), 1100),
+                    1 => (QueryMsg::Flag { b }.dispatch(&Qr::new(), (w.deps(), i.env())), 1101),
+                    2 => (ContractQueryMsg::Qr(QueryMsg::RawBin { b }).dispatch(&Qr::new(), (w.deps(), i.env())), 1100),
+                    _ => (ContractQueryMsg::Ifq(IfqQueryMsg::IqBin { b }).dispatch(&Qr::new(), (w.deps(), i.env())), 1110),
+                };
+                check_call(&i, &w, id, [b as u64, 0, 0, 0], false, false);
+                match &r {
+                    Ok(bin) => {
+                        let o = bin.as_slice();
+                        if $sel == 1 {
+                            let want: &[u8] = if b & 1 == 1 { b"true" } else { b"false" };
+                            assert!(o.len() == want.len(), "JSON encoding of the returned bool");
+                            let mut k = 0;
+                            while k < want.len() {
+                                assert!(o[k] == want[k], "JSON encoding of the returned bool");
+                                k += 1;
+                            }
+                        } else {
+                            assert!(o.len() == 3, "a Binary is returned as the JSON string of its base64 form, not as its bytes");
+                            assert!(o[0] == b'"' && o[2] == b'"' && o[1] == b'b', "JSON string of the (stubbed) base64 text of the returned byte");
+                        }
+                    }
+                    Err(_) => assert!(false, "these handlers succeed"),
+                }
+                kani::cover!(true, "reached");
+                core::mem::forget(r);
+            }
+        };
+    }
+    qre!(qret_bin, 0);
+    qre!(qret_bool, 1);
+    qre!(qret_bin_wrapped, 2);
+    qre!(qret_bin_iface, 3);
+
+    // @PLAYBACK hq@
 }
